@@ -1,6 +1,7 @@
 """loop / conditional kernels (C06, C01, C02)."""
-from vxlib import Inst, CORE_TUS, SCALAR_STUBS
+from vxlib import Inst, CORE_TUS, SCALAR_STUBS, FMT_STUBS, CTX_STUBS, CONTAINER_STUBS
 
+FA_TUS = [t for t in CORE_TUS if t != "blocc/executable.cpp"] + ["blocc/statement_forall.cpp", "blocc/expression_variable.cpp"]
 TUS = [t for t in CORE_TUS if t != "blocc/executable.cpp"] + ["blocc/statement_for.cpp", "blocc/expression_variable.cpp"]
 
 def instances():
@@ -20,4 +21,12 @@ def instances():
                             defs=["VX_STEP=%d" % st, "VX_DESC=%d" % desc], stubs=SCALAR_STUBS, unwind=3, timeout=600, tier="quick" if (st, desc) in ((1, 0), (2, 1)) else "thorough",
                             bounds="complete runs of <= 4 iterations, step and direction fixed per instance, |first| < 10^6, break at any iteration",
                             inputs="first, iteration count, limit slack, break position"))
+    out.append(Inst(id="c06.forall.final", props=["C06", "C07", "C01"], harness="h_c06.cpp", entry="c06_forall_final", tus=FA_TUS + ["blocc/statement_for.cpp"],
+                    stubs=FMT_STUBS + CTX_STUBS + ["_ZN4bloc10CollectionC2ERKS0_", "_ZN4bloc10CollectionD0Ev", "_ZN4bloc10CollectionD2Ev"] + CONTAINER_STUBS[3:], unwind=3, timeout=300,
+                    bounds="one exit from an arbitrary iteration record (covers every exit route and loop length)",
+                    inputs="saved safety / lock flags of iterator and table, index, direction"))
+    for o, on in (("auto", "FORALLStatement::AUTO"), ("desc", "FORALLStatement::DESC")):
+        out.append(Inst(id="c06.forall.run.%s" % o, props=["C06", "C09", "C01"], harness="h_c06.cpp", entry="c06_forall_run", tus=FA_TUS + ["blocc/statement_for.cpp"],
+                        defs=["VX_FORDER=%s" % on], stubs=FMT_STUBS + CTX_STUBS + CONTAINER_STUBS[3:], unwind=4, timeout=600,
+                        bounds="table variable of 2 integers, complete traversal", inputs="element values, whether the body writes through the iterator, written value"))
     return out
